@@ -236,7 +236,10 @@ Section SchurProofs.
                 (map (fun t => (trow t - r, tcol t - r, tval t)) (blk false false))) as [d Ed].
     { intros e He _. apply in_map_iff in He. destruct He as [t [<- Ht]]. destruct (Hblk _ _ _ Ht) as [Hin [H1 H2]].
       apply Nat.ltb_ge in H1, H2. destruct (Hts t Hin). cbn. split; lia. }
-    exists a, b, c, d. fold ts. fold blk. rewrite Ea, Eb, Ec, Ed. cbn [obind]. split; [reflexivity|].
+    exists a, b, c, d. split.
+    { pose proof Ea as Ea'. pose proof Eb as Eb'. pose proof Ec as Ec'. pose proof Ed as Ed'.
+      unfold blk in Ea', Eb', Ec', Ed'. rewrite Ea'. cbn [obind]. rewrite Eb'. cbn [obind].
+      rewrite Ec'. cbn [obind]. rewrite Ed'. reflexivity. }
     destruct (from_entries_spec o L _ _ _ _ Ea) as [Ha1 [Ha2 [_ Ha]]].
     destruct (from_entries_spec o L _ _ _ _ Eb) as [Hb1 [Hb2 [_ Hb]]].
     destruct (from_entries_spec o L _ _ _ _ Ec) as [Hc1 [Hc2 [_ Hc]]].
@@ -272,7 +275,7 @@ Section SchurProofs.
       apply filter_In. split.
       + apply filter_In. split; [apply (in_triplets abcd j (j, v)); [lia|assumption]|].
         cbn. unfold nzb. apply negb_true_iff. now apply (ris_zero_false o L).
-      + cbn. replace (j <? r) with true by (symmetry; now apply Nat.ltb_lt). reflexivity.
+      + unfold trow, tcol. cbn [fst snd]. replace (j <? r) with true by (symmetry; now apply Nat.ltb_lt). reflexivity.
   Qed.
 
   (* ================= SpMat * SpVec and SpVec - SpVec ================= *)
@@ -297,7 +300,9 @@ Section SchurProofs.
     - cbn. symmetry. apply (sum_zero_ext o L). intros; ring.
     - cbn [map list_sum fold_right centry]. fold (list_sum o (map (fun e => f (fst e) * snd e) v)).
       rewrite IH by (intros e' He'; apply H; now right).
-      rewrite (sum_ext o n _ (fun k => (if k =? fst e then f k * snd e else 0) + f k * centry o v k)).
+      symmetry.
+      rewrite (sum_ext o n (fun k => f k * ((if fst e =? k then snd e else 0) + centry o v k))
+                           (fun k => (if k =? fst e then f k * snd e else 0) + f k * centry o v k)).
       + rewrite (sum_add o L), (sum_delta o L) by (apply H; now left). reflexivity.
       + intros k _. rewrite (Nat.eqb_sym (fst e) k). destruct (k =? fst e); ring.
   Qed.
@@ -381,12 +386,12 @@ Section SchurProofs.
         + rewrite Ez. cbn [col_vec fst]. split; [reflexivity|]. split; [reflexivity|].
           intros i. unfold ventry at 1. cbn [snd]. rewrite Hz. unfold ventry. cbn [col_vec snd].
           rewrite (centry_filter_nz o L), Hx, Hcc. f_equal. f_equal. apply sum_ext. intros k _.
-          now rewrite (centry_filter_nz o L). }
+          cbn [col_vec snd]. now rewrite (centry_filter_nz o L). }
     rewrite (omap_map f g) by (intros j Hj; apply in_seq in Hj; apply Hf; lia).
     cbn [obind]. unfold from_col_vecs. destruct (forallb _ _) eqn:Hb.
     - eexists. split; [reflexivity|]. cbn [nrows ncols cols]. rewrite map_length, seq_length.
-      split; [reflexivity|]. split; [reflexivity|]. intros i j Hj. unfold entry, col. cbn [cols].
-      rewrite map_map, nth_map_seq by assumption. now destruct (Hf j Hj) as [_ [_ H]]; rewrite <- H.
+      split; [reflexivity|]. split; [reflexivity|]. intros i j Hj. destruct (Hf j Hj) as [_ [_ H]]. rewrite <- H.
+      unfold entry, ventry, col. cbn [cols]. now rewrite map_map, nth_map_seq.
     - exfalso. apply Bool.not_true_iff_false in Hb. apply Hb. apply forallb_forall. intros v Hv.
       apply in_map_iff in Hv. destruct Hv as [j [<- Hj]]. apply in_seq in Hj. apply Nat.eqb_eq.
       now destruct (Hf j ltac:(lia)) as [_ [H _]].
@@ -440,7 +445,7 @@ Section SchurProofs.
         destruct Hin as [E|[]]. injection E as <- _. lia. }
     exists b. split; [exact Eb|]. destruct (from_entries_spec o L _ _ _ _ Eb) as [H1 [H2 [_ He]]].
     split; [exact H1|]. split; [lia|]. intros i j Hi Hj. rewrite He by lia.
-    unfold es. rewrite (tsum_app o L), !tsum_shift. cbn [Nat.leb andb]. rewrite !Nat.sub_0_r.
+    unfold es. rewrite (tsum_app o L), !tsum_shift. cbn [Nat.leb andb]. rewrite !Nat.sub_0_r, andb_true_r.
     rewrite (tsum_triplets o L) by lia.
     destruct (Nat.ltb_spec i (nrows x)) as [Hlt|Hge].
     - replace (nrows x <=? i) with false by (symmetry; apply Nat.leb_gt; lia). ring.
@@ -478,7 +483,7 @@ Section SchurProofs.
   Qed.
 
   (* a triangular system with unit diagonal has at most one solution *)
-  Lemma tri_inj upper r (A : mat R) (w : nat -> R) :
+  Lemma tri_inj (upper : bool) r (A : mat R) (w : nat -> R) :
     (forall j, j < r -> exists ui, A j j * ui = 1) ->
     (forall i j, i < r -> j < r -> (if upper then j < i else i < j) -> A i j = 0) ->
     (forall i, i < r -> sum o r (fun k => A i k * w k) = 0) ->
@@ -500,6 +505,13 @@ Section SchurProofs.
       intros k Hk. apply (G (S k) k); lia.
   Qed.
 
+  Lemma sum_pick n i (f : nat -> R) g :
+    i < n -> (forall k, k < n -> f k = if k =? i then g else 0) -> sum o n f = g.
+  Proof.
+    intros Hi H. rewrite (sum_ext o n f (fun k => if k =? i then g else 0)) by exact H.
+    now rewrite (sum_delta o L n i (fun _ => g)).
+  Qed.
+
   Section Algebra.
     Variables (r p q : nat) (M X Zm S Fs Bs Ft Bt : mat R).
     Hypothesis HAX : forall i j, i < r -> j < q -> sum o r (fun k => M i k * X k j) = M i (r + j)%nat.
@@ -517,13 +529,10 @@ Section SchurProofs.
       intros Hi Hl. unfold mmul. rewrite (sum_split o L). f_equal.
       - rewrite <- (sum_neg o L). apply sum_ext. intros k Hk. rewrite HFt by lia.
         replace (k <? r) with true by (symmetry; now apply Nat.ltb_lt). ring.
-      - rewrite (sum_single o L p i) by
-          (try assumption; intros k Hk Hne; rewrite HFt by lia;
-           replace (r + k <? r) with false by (symmetry; apply Nat.ltb_ge; lia);
-           replace (r + k - r)%nat with k by lia; unfold mid;
-           destruct (Nat.eqb_spec i k); [congruence|ring]).
-        rewrite HFt by lia. replace (r + i <? r) with false by (symmetry; apply Nat.ltb_ge; lia).
-        replace (r + i - r)%nat with i by lia. unfold mid. rewrite Nat.eqb_refl. ring.
+      - apply (sum_pick p i); [assumption|]. intros k Hk. rewrite HFt by lia.
+        replace (r + k <? r) with false by (symmetry; apply Nat.ltb_ge; lia).
+        replace (r + k - r)%nat with k by lia. unfold mid. rewrite (Nat.eqb_sym i k).
+        destruct (Nat.eqb_spec k i) as [->|Hne]; ring.
     Qed.
 
     Lemma schur_transfer : meq p q (mmul o (r + q) (mmul o (r + p) Ft M) Bs) S.
@@ -531,13 +540,11 @@ Section SchurProofs.
       intros i j Hi Hj. unfold mmul at 1. rewrite (sum_split o L).
       rewrite (sum_zero_ext o L r).
       2:{ intros l Hl. rewrite FtM by lia. rewrite HZA by assumption. ring. }
-      rewrite (sum_single o L q j) by
-        (try assumption; intros k Hk Hne; rewrite HBs by lia;
-         replace (r + k <? r) with false by (symmetry; apply Nat.ltb_ge; lia);
-         replace (r + k - r)%nat with k by lia; unfold mid;
-         destruct (Nat.eqb_spec k j); [congruence|ring]).
-      rewrite HBs by lia. replace (r + j <? r) with false by (symmetry; apply Nat.ltb_ge; lia).
-      replace (r + j - r)%nat with j by lia. unfold mid at 1. rewrite Nat.eqb_refl.
+      rewrite (sum_pick q j _ (mmul o (r + p) Ft M i (r + j)%nat)); [|assumption|].
+      2:{ intros k Hk. rewrite HBs by lia.
+          replace (r + k <? r) with false by (symmetry; apply Nat.ltb_ge; lia).
+          replace (r + k - r)%nat with k by lia. unfold mid.
+          destruct (Nat.eqb_spec k j) as [->|Hne]; ring. }
       rewrite FtM by lia. rewrite HS by assumption.
       (* z b = z (a x) = (z a) x = c x *)
       assert (E : sum o r (fun k => Zm i k * M k (r + j)%nat) = sum o r (fun k => M (r + i)%nat k * X k j)).
@@ -550,26 +557,22 @@ Section SchurProofs.
 
     Lemma src_retract : meq q q (mmul o (r + q) Fs Bs) (mid o).
     Proof.
-      intros i j Hi Hj. unfold mmul.
-      rewrite (sum_single o L (r + q) (r + i)) by
-        (try lia; intros k Hk Hne; rewrite HFs by lia; destruct (Nat.eqb_spec k (r + i)); [congruence|ring]).
-      rewrite HFs, HBs by lia. rewrite Nat.eqb_refl.
-      replace (r + i <? r) with false by (symmetry; apply Nat.ltb_ge; lia).
+      intros i j Hi Hj. unfold mmul. apply (sum_pick (r + q) (r + i)); [lia|].
+      intros k Hk. rewrite HFs by lia. destruct (Nat.eqb_spec k (r + i)) as [->|Hne]; [|ring].
+      rewrite HBs by lia. replace (r + i <? r) with false by (symmetry; apply Nat.ltb_ge; lia).
       replace (r + i - r)%nat with i by lia. ring.
     Qed.
 
     Lemma tgt_retract : meq p p (mmul o (r + p) Ft Bt) (mid o).
     Proof.
-      intros i j Hi Hj. unfold mmul.
-      rewrite (sum_single o L (r + p) (r + j)) by
-        (try lia; intros k Hk Hne; rewrite HBt by lia; destruct (Nat.eqb_spec k (r + j)); [congruence|ring]).
-      rewrite HFt, HBt by lia. rewrite Nat.eqb_refl.
-      replace (r + j <? r) with false by (symmetry; apply Nat.ltb_ge; lia).
+      intros i j Hi Hj. unfold mmul. apply (sum_pick (r + p) (r + j)); [lia|].
+      intros k Hk. rewrite HBt by lia. destruct (Nat.eqb_spec k (r + j)) as [->|Hne]; [|ring].
+      rewrite HFt by lia. replace (r + j <? r) with false by (symmetry; apply Nat.ltb_ge; lia).
       replace (r + j - r)%nat with j by lia. ring.
     Qed.
 
     (* s = d - c a^-1 b for every right inverse a^-1 of the leading block *)
-    Lemma schur_formula upper (Ainv : mat R) :
+    Lemma schur_formula (upper : bool) (Ainv : mat R) :
       (forall j, j < r -> exists ui, M j j * ui = 1) ->
       (forall i j, i < r -> j < r -> (if upper then j < i else i < j) -> M i j = 0) ->
       meq r r (mmul o r M Ainv) (mid o) ->
@@ -591,7 +594,8 @@ Section SchurProofs.
         rewrite (sum_swap o L).
         rewrite (sum_ext o r _ (fun l => mid o i0 l * M l (r + j)%nat)).
         2:{ intros l Hl. rewrite <- (Hinv i0 l Hi0 Hl). unfold mmul. rewrite <- (sum_scal_r o L). reflexivity. }
-        fold (mmul o r (mid o) (fun l c => M l c) i0 (r + j)). rewrite (mmul_id_l o L) by assumption. ring. }
+        change (sum o r (fun l => mid o i0 l * M l (r + j)%nat)) with (mmul o r (mid o) M i0 (r + j)%nat).
+        rewrite (mmul_id_l o L) by assumption. ring. }
       specialize (Hw k Hk). unfold w in Hw.
       transitivity (X k j + - sum o r (fun l => Ainv k l * M l (r + j)%nat) + sum o r (fun l => Ainv k l * M l (r + j)%nat)); [ring|].
       rewrite Hw. ring.
